@@ -75,7 +75,22 @@ ConcatEmptyAppend ==
   /\ ops' = Append(ops, "concat")
   /\ UNCHANGED <<init, shape>>
 
-Next == Skip(1) \/ Skip(2) \/ Take(1) \/ Fresh \/ ConcatEmptyAppend
+(* `%two.select(x)`: the projection x is evaluated once per item of a two-item input and the outputs are  *)
+(* concatenated.  The desired behaviour builds the result in a collection of its own; the mutant adopts the *)
+(* first output - a view onto the caller's array - and appends the second one to it.                         *)
+ProjSelect ==
+  /\ Len(ops) < MaxSteps
+  /\ LET items == [j \in 1..cur.len |-> heap[cur.a][cur.off + j]] IN
+     IF Mutant = "selectAdoptsFirst" /\ cur.len > 0 /\ cur.cap >= 2 * cur.len
+     THEN /\ heap' = [heap EXCEPT ![cur.a] = [c \in 1..Len(heap[cur.a]) |->
+                         IF c > cur.off + cur.len /\ c <= cur.off + 2 * cur.len THEN items[c - cur.off - cur.len] ELSE heap[cur.a][c]]]
+          /\ cur' = [cur EXCEPT !.len = 2 * cur.len]
+     ELSE /\ heap' = Append(heap, items \o items)
+          /\ cur' = [a |-> Len(heap) + 1, off |-> 0, len |-> 2 * cur.len, cap |-> 2 * cur.len]
+  /\ ops' = Append(ops, "proj")
+  /\ UNCHANGED <<init, shape>>
+
+Next == Skip(1) \/ Skip(2) \/ Take(1) \/ Fresh \/ ConcatEmptyAppend \/ ProjSelect
 Spec == Init /\ [][Next]_vars
 
 (* The property: the caller's array - items AND spare capacity - never changes. *)
